@@ -5,10 +5,13 @@ a symbolic record, symbolic current file system, command and response-file text:
 a record and unchanged names + mtimes of every dirtying input, discovered dependency and output, unchanged command
 line and response file, and nothing relevant missing.  (2) The scheduler harness with the ordering assertions that
 C02 relies on: a step is judged only after its producers settled, so it sees their fresh output mtimes (S-cut).
+(3) The S-full chain (checks/sfull.py) and the S-task chain (checks/taskchain.py: the same with the real command
+runner, run_task and read_depfile in the loop, the command reporting through depfile TEXT).
 """
 from checks import dirtykernel as DK
 from checks import schedlib as S
 from checks import sfull
+from checks import taskchain
 
 LEVEL = 'other'
 
@@ -16,6 +19,7 @@ LEVEL = 'other'
 def run(ctx, out):
     ex = DK.run_kernel(ctx, out, 'C02', {'C02', 'C09'})
     sfull.run_chain(ctx, out, 'C02', {'C02', 'C09'})
+    taskchain.run_taskchain(ctx, out, 'C02', {'C02', 'C09'})
     fams = [f for f in S.families(ctx.tier) if f.name in ('chain of three', 'fan-in: two producers, one consumer')]
     S.run_check(ctx, out, 'C01', fams, {'C01'})
     cov = out.coverage
@@ -37,6 +41,8 @@ def run(ctx, out):
 
 
 def replay(ctx, cex):
+    if 'variant' in cex['replay']:
+        return taskchain.replay_taskchain(ctx, cex)
     if 'model' in cex['replay']:
         return sfull.replay_chain(ctx, cex)
     if cex['replay'].get('cmd', '').startswith('dirty1'):
